@@ -29,9 +29,47 @@ def qj(x):
     return cf.qjson(x)
 
 
+# ------------------------------------------------------------------------------------------------
+# second tie (DESIGN 2.6): _do_put/_do_get of Container, Store, PriorityStore translated from the tree under
+# test on every run (vlib/translate.py, fail closed) into coq/Gen/Extracted_container.v / Extracted_store.v;
+# bridged to Res/ContainerStore.v by coq/Res/ContainerStoreBridge.v; obligations in Props/C07_Bridge.v.
+# FilterStore._do_get (a for loop) is outside the translated subset.
+
+CONT_READS = [("self._capacity", "capacity", "Q"),            # a finite capacity (float('inf') is not a rational:
+              ("event.amount", "amount", "Q")]                #   the unbounded container is tied by the correspondence only)
+CONT_FX = [("event.succeed()", "FxSucceed", [])]
+STORE_READS = [("self.items", "n_items", "len", "volatile"), ("self._capacity", "capacity", "Q")]
+STORE_FX = [("self.items.append(event.item)", "FxAppend", []),
+            ("heappush(self.items, event.item)", "FxHeapPush", []),
+            ("event.succeed()", "FxSucceed", []),
+            ("event.succeed(self.items.pop(0))", "FxSucceedPop0", []),
+            ("event.succeed(heappop(self.items))", "FxSucceedHeapPop", [])]
+
+
+def extracted_container(repo):
+    import os
+    from vlib import translate as tr
+    path = os.path.join(repo, "onl", "sim", "resources", "container.py")
+    specs = [tr.FnSpec(path, "Container", m, f"gen_Container{m}", reads=CONT_READS, effects=CONT_FX, ret="bool")
+             for m in ("_do_put", "_do_get")]
+    return tr.gen_module("onl/sim/resources/container.py: Container._do_put, _do_get", "cont_st", "c_", [("_level", "Q")],
+                         "cont_fx", [("FxSucceed", "")], specs)
+
+
+def extracted_store(repo):
+    import os
+    from vlib import translate as tr
+    path = os.path.join(repo, "onl", "sim", "resources", "store.py")
+    specs = [tr.FnSpec(path, c, m, f"gen_{c}{m}", reads=STORE_READS, effects=STORE_FX, ret="bool")
+             for c in ("Store", "PriorityStore") for m in ("_do_put", "_do_get")]
+    return tr.gen_module("onl/sim/resources/store.py: Store / PriorityStore ._do_put, _do_get", None, "", [], "store_fx",
+                         [("FxAppend", ""), ("FxHeapPush", ""), ("FxSucceed", ""), ("FxSucceedPop0", ""),
+                          ("FxSucceedHeapPop", "")], specs)
+
+
 class C07(Prop):
     id = "C07"
-    props_file = "Props/C07.v"
+    props_file = ["Props/C07.v", "Props/C07_Bridge.v"]
     coq_imports = ["From ONL Require Import Base.Cmp Res.Heap Res.ContainerStore Res.ContainerStoreObs."]
     n_quick = 3000
     n_thorough = 40000
@@ -49,6 +87,9 @@ class C07(Prop):
         "amounts, levels and times are dyadic, so the floats the code computes are exact and are compared as rationals; "
         "float rounding is outside the theorems",
         "CPython heapq is modelled by a transcription (coq/Res/Heap.v) that is compared with the real heap array after every action",
+        "vlib/translate.py (Python ast, fail closed; observation/effect tables at the top of props/c07.py) regenerates "
+        "coq/Gen/Extracted_container.v and Extracted_store.v from the _do_put/_do_get bodies of the tree under test before every "
+        "build; the C07_gen_* theorems (Props/C07_Bridge.v) bridge them to the hand-written model (finite capacities)",
         "FilterStore: list.remove(item) removes the first element EQUAL to the matching item; items whose __eq__ "
         "disagrees with their filter are outside the model",
         "the model quantifies over every interleaving of operations and event processing; that the real kernel processes a "
@@ -61,6 +102,14 @@ class C07(Prop):
         "PriorityStore items are compared by `<` on an integer key (PriorityItem.priority)",
     ]
     partial = []
+
+    # ---- second tie: regenerate the translated bodies before the Coq build (fail closed) -------
+    def pre_build(self):
+        import os
+        from vlib import framework as fw
+        from vlib import translate as tr
+        tr.write_if_changed(os.path.join(fw.COQ, "Gen", "Extracted_container.v"), extracted_container(fw.REPO))
+        tr.write_if_changed(os.path.join(fw.COQ, "Gen", "Extracted_store.v"), extracted_store(fw.REPO))
 
     # ---- generation -------------------------------------------------------------------------
     def _param(self, rng, kind, op):
